@@ -79,6 +79,22 @@ def gen_delta(rng):
                 change=[0.0] * (n + 2), add=[0.0] * (n + 3), n=n, maxb=maxb)
 
 
+def gen_improve(rng):
+    n = rng.randint(1, 6)
+    r, _maxb, _wit = dense_vector(rng, n)
+    return dict(r=r, cost_matrix_1d=dyadic_table(rng, n), n=n)
+
+
+def gen_bio(rng):
+    n = rng.randint(1, 5)
+    nb = rng.randint(0, 3)
+    dep = []
+    for _ in range(nb):
+        dep += dense_vector(rng, n)[0]
+    return dict(departure_rankings=dep, cost_matrix_1d=dyadic_table(rng, n), n=n, nb_rankings_departure=nb,
+                dst_min=[0.0] * nb)
+
+
 def register(reg):
     # ------------------------------------------------------------------------------------------------------------------
     reg.spec("def r_after_set(r0, element, new_pos, j):\n    return new_pos if j == element else r0[j]",
@@ -300,3 +316,109 @@ def register(reg):
         })},
         gen=lambda rng: gen_delta(rng),
     )
+
+    # ------------------------------------------------------------------------------------------------------------------
+    # score of a bucket-id vector against the flattened cost table:  SC = sum over pairs a < b of the cell selected
+    # by comparing the two bucket ids (0 before, 1 after, 2 tied).  `o` is an offset into a flattened matrix of rows.
+    reg.spec("def relcell(r, o, c, n, a, b):\n"
+             "    return c[3*n*a + 3*b + ite(r[o + a] < r[o + b], 0, ite(r[o + a] > r[o + b], 1, 2))]",
+             dict(r=Arr(Int), o=Int, c=Arr(Real), n=Int, a=Int, b=Int), Real)
+    reg.spec("def SCrow(r, o, c, n, a, m):\n"
+             "    return 0.0 if m <= a + 1 else SCrow(r, o, c, n, a, m - 1) + relcell(r, o, c, n, a, m - 1)",
+             dict(r=Arr(Int), o=Int, c=Arr(Real), n=Int, a=Int, m=Int), Real)
+    reg.spec("def SC(r, o, c, n, m):\n"
+             "    return 0.0 if m <= 0 else SC(r, o, c, n, m - 1) + SCrow(r, o, c, n, m - 1, n)",
+             dict(r=Arr(Int), o=Int, c=Arr(Real), n=Int, m=Int), Real)
+
+    # arithmetic facts (non-linear), proved once and invoked as lemma calls at loop heads
+    reg.lemma("mul_mono", dict(i=Int, nb=Int, n=Int), "i * n >= 0 and i * n + n <= nb * n", props=["C04", "C08", "C09"],
+              requires={"i": "0 <= i < nb", "n": "n >= 0"})
+    reg.lemma("idx_bound", dict(a=Int, b=Int, n=Int), "3*n*a + 3*b >= 0 and 3*n*a + 3*b + 2 < 3*n*n",
+              props=["C04", "C08", "C09"], requires={"a": "0 <= a < n", "b": "0 <= b < n"})
+
+    reg.contract(
+        F + "_improve_one_ranking", props=["C08", "C09", "C04"],
+        params=dict(r=Arr(Int), cost_matrix_1d=Arr(Real), n=Int), returns=Real,
+        requires={"len": "len(r) == n and n >= 1", "len_c": "len(cost_matrix_1d) == 3 * n * n",
+                  "range": "forall(lambda j: 0 <= r[j] <= n - 1, 0, n)"},
+        modifies=["r"],
+        ensures={},
+        assumed={
+            "range": "forall(lambda j: 0 <= r[j] <= n - 1, 0, n)",
+            "nonpos": "result <= 0",
+            "delta": "result == SC(r, 0, cost_matrix_1d, n, n) - SC(old(r), 0, cost_matrix_1d, n, n)",
+        },
+        gen=lambda rng: gen_improve(rng),
+        notes="composition contract: see the sweep obligations",
+    )
+
+    reg.contract(
+        F + "BioConsert._bio_consert", props=["C04", "C09"],
+        params=dict(departure_rankings=Arr(Int), cost_matrix_1d=Arr(Real), n=Int, nb_rankings_departure=Int,
+                    dst_min=Arr(Real)),
+        requires={"n": "n >= 1 and nb_rankings_departure >= 0",
+                  "len_dep": "len(departure_rankings) == nb_rankings_departure * n",
+                  "len_c": "len(cost_matrix_1d) == 3 * n * n", "len_dst": "len(dst_min) == nb_rankings_departure",
+                  "range": "forall(lambda p: 0 <= departure_rankings[p] <= n - 1, 0, len(departure_rankings))"},
+        modifies=["departure_rankings", "dst_min"],
+        ensures={
+            "range": "forall(lambda p: 0 <= departure_rankings[p] <= n - 1, 0, len(departure_rankings))",
+        },
+        after_loop={3: {"init_score": "dst_init == SC(r, 0, cost_matrix_1d, n, n)"}},
+        loops={
+            1: dict(inv={"cpt": "cpt == i * n",
+                         "len_r": "len(r) == n",
+                         "range": "forall(lambda p: 0 <= departure_rankings[p] <= n - 1, 0, len(departure_rankings))"}),
+            2: dict(inv={"cpt2": "cpt2 == cpt + j",
+                         "copied": "forall(lambda a: r[a] == departure_rankings[cpt + a], 0, j)"}),
+            3: dict(inv={"partial": "dst_init == SC(r, 0, cost_matrix_1d, n, id_elem1)"}),
+            4: dict(inv={"partial": "dst_init == SC(r, 0, cost_matrix_1d, n, id_elem1) + "
+                                    "SCrow(r, 0, cost_matrix_1d, n, id_elem1, id_elem2)"}),
+            5: dict(inv={"cpt2": "cpt2 == cpt + j",
+                         "range": "forall(lambda p: implies(p < cpt or p >= cpt + j, 0 <= departure_rankings[p] <= n - 1), "
+                                  "0, len(departure_rankings))",
+                         "copied": "forall(lambda p: departure_rankings[p] == r[p - cpt], cpt, cpt + j)"}),
+        },
+        hints={1: ["mul_mono(i, nb_rankings_departure, n)"],
+               2: ["mul_mono(i, nb_rankings_departure, n)"],
+               4: ["idx_bound(id_elem1, id_elem2, n)"],
+               5: ["mul_mono(i, nb_rankings_departure, n)"]},
+        gen=lambda rng: gen_bio(rng),
+    )
+
+    # ------------------------------------------------------------------------------------------------------------------
+    # Pigeonhole for dense vectors, by counting:  CNT = occurrences of id b among the first m entries,
+    # TOT = sum of CNT over ids 0..k.  dense(r) => maxb + 1 <= n; with two elements in one bucket maxb + 2 <= n.
+    reg.spec("def CNT(r, m, b):\n    return 0 if m <= 0 else CNT(r, m - 1, b) + ite(r[m - 1] == b, 1, 0)",
+             dict(r=Arr(Int), m=Int, b=Int), Int)
+    reg.spec("def TOT(r, m, k):\n    return 0 if k < 0 else TOT(r, m, k - 1) + CNT(r, m, k)",
+             dict(r=Arr(Int), m=Int, k=Int), Int)
+    PH = ["C08", "C09", "C03"]
+    reg.lemma("cnt_nonneg", dict(r=Arr(Int), m=Int, b=Int), "CNT(r, m, b) >= 0", props=PH, induction="m", base="0")
+    reg.lemma("tot_empty", dict(r=Arr(Int), k=Int), "TOT(r, 0, k) == 0", props=PH, induction="k", base="-1")
+    reg.lemma("tot_step", dict(r=Arr(Int), m=Int, k=Int),
+              "TOT(r, m + 1, k) == TOT(r, m, k) + ite(0 <= r[m] and r[m] <= k, 1, 0)", props=PH,
+              induction="k", base="-1", requires={"m": "m >= 0"})
+    reg.lemma("tot_is_len", dict(r=Arr(Int), m=Int, k=Int), "TOT(r, m, k) == m", props=PH, induction="m", base="0",
+              requires={"range": "forall(lambda j: 0 <= r[j] and r[j] <= k, 0, m)"},
+              use_lemmas=["tot_empty", "tot_step"])
+    reg.lemma("cnt_witness", dict(r=Arr(Int), m=Int, b=Int, w=Int), "CNT(r, m, b) >= 1", props=PH,
+              induction="m", base="w + 1", requires={"w": "0 <= w and r[w] == b"}, use_lemmas=["cnt_nonneg"])
+    reg.lemma("cnt_two", dict(r=Arr(Int), m=Int, b=Int, w1=Int, w2=Int), "CNT(r, m, b) >= 2", props=PH,
+              induction="m", base="w2 + 1", requires={"w": "0 <= w1 and w1 < w2 and r[w1] == b and r[w2] == b"},
+              use_lemmas=["cnt_witness"])
+    DW = {"n": "m >= 0", "wit": "forall(lambda b: 0 <= wit[b] and wit[b] < m and r[wit[b]] == b, 0, k + 1)"}
+    reg.lemma("tot_lower", dict(r=Arr(Int), m=Int, k=Int, wit=Arr(Int)), "TOT(r, m, k) >= k + 1", props=PH,
+              induction="k", base="-1", requires=DW, hints=["cnt_witness(r, m, k + 1, wit[k + 1])"])
+    reg.lemma("tot_lower2", dict(r=Arr(Int), m=Int, k=Int, wit=Arr(Int), e1=Int, e2=Int), "TOT(r, m, k) >= k + 2",
+              props=PH, induction="k", base="r[e1]",
+              requires=dict(DW, pair="0 <= e1 and e1 < e2 and e2 < m and r[e1] == r[e2] and r[e1] >= 0"),
+              hints=["cnt_witness(r, m, k + 1, wit[k + 1])"],
+              base_hints=["tot_lower(r, m, r[e1] - 1, wit)", "cnt_two(r, m, r[e1], e1, e2)"])
+    reg.lemma("dense_bound", dict(r=Arr(Int), m=Int, k=Int, wit=Arr(Int)), "k + 1 <= m", props=PH,
+              requires=dict(DW, k="k >= -1", range="forall(lambda j: 0 <= r[j] and r[j] <= k, 0, m)"),
+              hints=["tot_is_len(r, m, k)", "tot_lower(r, m, k, wit)"])
+    reg.lemma("dense_bound2", dict(r=Arr(Int), m=Int, k=Int, wit=Arr(Int), e1=Int, e2=Int), "k + 2 <= m", props=PH,
+              requires=dict(DW, k="k >= -1", range="forall(lambda j: 0 <= r[j] and r[j] <= k, 0, m)",
+                            pair="0 <= e1 and e1 < e2 and e2 < m and r[e1] == r[e2]"),
+              hints=["tot_is_len(r, m, k)", "tot_lower2(r, m, k, wit, e1, e2)"])
